@@ -38,7 +38,7 @@ type cloneEdit struct {
 
 // sharedHelperOverlay returns the overlay (file name -> rewritten content) and the names of
 // the helpers that were cloned; both empty when there is nothing to clone.
-func (p *Program) sharedHelperOverlay() (map[string][]byte, []string) {
+func (p *Program) sharedHelperOverlay(leaves bool) (map[string][]byte, []string) {
 	var pk *packages.Package
 	for _, x := range p.Pkgs {
 		if x.Types == p.Leader.Pkg {
@@ -101,11 +101,11 @@ func (p *Program) sharedHelperOverlay() (map[string][]byte, []string) {
 			continue
 		}
 		sig := obj.Type().(*types.Signature)
-		if sig.RecvTypeParams().Len() > 0 || sig.Params().Len() == 0 {
+		if sig.RecvTypeParams().Len() > 0 || (sig.Params().Len() == 0 && sig.Recv() == nil) {
 			continue
 		}
 		fn := p.Prog.FuncValue(obj)
-		if fn == nil || fn.Blocks == nil || !p.isPlumbingHelper(m, fn) {
+		if fn == nil || fn.Blocks == nil || !p.isPlumbingHelper(m, fn, leaves) {
 			continue
 		}
 		ids := uses[obj]
@@ -192,7 +192,7 @@ func (p *Program) sharedHelperOverlay() (map[string][]byte, []string) {
 
 // isPlumbingHelper: fn blocks (or calls a function-typed parameter) and can reach neither a
 // store operation nor a store of the leadership claim.
-func (p *Program) isPlumbingHelper(m *Model, fn *ssa.Function) bool {
+func (p *Program) isPlumbingHelper(m *Model, fn *ssa.Function, leaves bool) bool {
 	blocks := false
 	for _, b := range fn.Blocks {
 		for _, in := range b.Instrs {
@@ -214,8 +214,32 @@ func (p *Program) isPlumbingHelper(m *Model, fn *ssa.Function) bool {
 			}
 		}
 	}
-	if !blocks {
+	if !blocks && !leaves {
 		return false
+	}
+	if !blocks {
+		// ... or a small leaf: a few statements on the receiver's fields shared by two to four
+		// places (stopTimerLocked, transitionLocked): no library call, no go statement, no loop
+		n, leaf := 0, true
+		for _, b := range fn.Blocks {
+			for _, in := range b.Instrs {
+				n++
+				switch x := in.(type) {
+				case *ssa.Go, *ssa.Defer:
+					leaf = false
+				case *ssa.Call:
+					if g := x.Call.StaticCallee(); g != nil && m.isLib(g) {
+						leaf = false
+					}
+					if _, isLock := m.lockOpOf(&x.Call); isLock {
+						leaf = false
+					}
+				}
+			}
+		}
+		if !leaf || n > 40 || len(cfgLoops(fn)) > 0 || len(fn.AnonFuncs) > 0 {
+			return false
+		}
 	}
 	for g := range m.staticReach(fn, true) {
 		if containsFn(m.ClaimStoreFns, g) {
